@@ -9,6 +9,7 @@ import (
 func init() {
 	vHarnesses["VerifH_C12_loop"] = VerifH_C12_loop
 	vHarnesses["VerifH_C12_twojumps"] = VerifH_C12_twojumps
+	vHarnesses["VerifH_C12_moving"] = VerifH_C12_moving
 }
 
 // VerifH_C12_loop: V().set(c,c0).mark(m).increment(c,1).jump(m, lt(c,D), emit)
@@ -126,4 +127,72 @@ func VerifH_C12_twojumps() {
 		}
 	}
 	vAssert("C12.two.no-goroutine-left", vBlockedGoroutines() == 0)
+}
+
+// VerifH_C12_moving: the loop body moves: V(start).as(a).set($a.c,0).mark(m).out()
+// .increment($a.c,1).jump(m, lt($a.c,D), emit) on a directed 2-cycle. The counter
+// lives in the mark namespace, so it survives the move; a traveler makes exactly D
+// passes and sits on start+p (mod 2) after pass p.
+func VerifH_C12_moving() {
+	K := 1 + vChoice("starts", vParam("K", 2))
+	D := 1 + vChoice("depth", vParam("D", 2))
+	emit := vChoice("emit", 2) == 1
+	g := &vGraph{honourLoad: false}
+	for i := 0; i < 2; i++ {
+		g.vs = append(g.vs, &gdbi.Vertex{ID: "v" + string(rune('0'+i)), Label: "L", Data: map[string]interface{}{}, Loaded: true})
+	}
+	g.es = []*gdbi.Edge{
+		{ID: "e0", From: "v0", To: "v1", Label: "E", Data: map[string]interface{}{}, Loaded: true},
+		{ID: "e1", From: "v1", To: "v0", Label: "E", Data: map[string]interface{}{}, Loaded: true},
+	}
+	g.compiler = func(g *vGraph) gdbi.Compiler { return NewCompiler(g, IndexStartOptimize) }
+	start := sV("v0")
+	if K == 2 {
+		start = sV()
+	}
+	stmts := []*gripql.GraphStatement{
+		start,
+		sAs("a"),
+		{Statement: &gripql.GraphStatement_Set{Set: &gripql.Set{Key: "$a.c", Value: structpb.NewNumberValue(0)}}},
+		{Statement: &gripql.GraphStatement_Mark{Mark: "m"}},
+		sOut(),
+		{Statement: &gripql.GraphStatement_Increment{Increment: &gripql.Increment{Key: "$a.c", Value: 1}}},
+		{Statement: &gripql.GraphStatement_Jump{Jump: &gripql.Jump{Mark: "m", Emit: emit,
+			Expression: &gripql.HasExpression{Expression: &gripql.HasExpression_Condition{Condition: &gripql.HasCondition{Key: "$a.c", Condition: gripql.Condition_LT, Value: structpb.NewNumberValue(float64(D))}}}}}},
+	}
+	pipe, err := g.Compiler().Compile(stmts, nil)
+	vAssert("C12.moving.compiles", err == nil)
+	if err != nil {
+		return
+	}
+	rows := vRunPipe(g, pipe, 4)
+	vReach("c12.moving.closed")
+	want := 0
+	if emit {
+		want = K * D
+	}
+	vAssert("C12.moving.row-count", len(rows) == want)
+	// per start vertex and pass: one row on the vertex reached after that many moves
+	for s := 0; emit && s < K; s++ {
+		for p := 1; p <= D; p++ {
+			id := "v" + string(rune('0'+(s+p)%2))
+			n := 0
+			for _, r := range rows {
+				if v := r.GetVertex(); v != nil && v.Gid == id {
+					n++
+				}
+			}
+			// rows on this vertex: every (start, pass) pair that lands on it
+			exp := 0
+			for s2 := 0; s2 < K; s2++ {
+				for p2 := 1; p2 <= D; p2++ {
+					if (s2+p2)%2 == (s+p)%2 {
+						exp++
+					}
+				}
+			}
+			vAssert("C12.moving.rows-per-vertex", n == exp)
+		}
+	}
+	vAssert("C12.moving.no-goroutine-left", vBlockedGoroutines() == 0)
 }
